@@ -250,5 +250,9 @@ def _gen_action(r, cls: str, sc, pname: str, close: D, nxt, bprec: int, qprec: i
         amt = amt if amt > 0 else unit(sp)
         if r.random() < 0.05:
             amt = D(r.choice(["0", "-1"]))
+        elif cls in ("random", "margin", "cross") and r.random() < 0.12:
+            # create_loan does not validate precision: an amount with more decimals than the symbol's grid is a legal
+            # input (C08's grid clause is then don't-care for that account, the other properties still apply)
+            amt = amt + unit(sp) * D(r.choice(["0.5", "0.25", "0.125", "0.3"]))
         return {"op": "loan", "symbol": sym, "amount": _s(amt), "boundary": lend and r.random() < 0.35}
     return {"op": "repay", "among": r.choice(["open", "open", "open", "any", "closed", "unknown"]), "pick": r.randrange(1000)}
